@@ -315,6 +315,65 @@ func evsWord(s []string) string {
 	return strings.Join(s, ",")
 }
 
+// ---------- the paging predicates of C09_paging_terminates, evaluated on the IMPLEMENTATION's page sequence ----------
+// (page_chunk_ok / page_empty_ok / page_progress_ok = the conjuncts of pages_ok, page_count_ok; the oracle runs the
+// extracted booleans and names the first failing conjunct)
+var pagingClass = map[string]string{
+	"chunk":    "paging:chunk-exceeded",
+	"empty":    "paging:empty-page-without-scan-limit",
+	"progress": "paging:token-not-advancing",
+	"count":    "paging:too-many-pages",
+	"pages_ok": "paging:pages_ok",
+}
+
+func (r *realRun) checkPaging(cmd string, pages []string, desc string) {
+	rep := r.or.Ask(cmd+" "+strings.Join(pages, " "), 1)[0]
+	if !r.quiet {
+		r.c.Hist["paging-predicates:"+strings.Fields(rep)[0]]++
+	}
+	if f := strings.Fields(rep); f[0] == "bad" {
+		class := pagingClass[f[1]]
+		if class == "" {
+			class = "paging:" + f[1]
+		}
+		r.fail(class, fmt.Sprintf("%s: page sequence (size:token) %v violates %s (%s)", desc, pages, f[1], rep), false)
+	}
+}
+
+// kinds of continuation tokens relative to the canonical / pre-confirmed border (height = number of canonical blocks)
+func (r *realRun) countToken(nb, nc string, size int, height uint64, npre int) {
+	if r.quiet || (nb == "0" && nc == "0") {
+		return
+	}
+	b, _ := strconv.ParseUint(nb, 10, 64)
+	c, _ := strconv.ParseUint(nc, 10, 64)
+	h := r.c.Hist
+	if size == 0 {
+		h["token:empty-page(scan-limit)"]++
+	}
+	switch {
+	case b < height && c == 0:
+		h["token:canonical-block-start"]++
+	case b < height:
+		h["token:mid-canonical-block"]++
+	}
+	if npre == 0 {
+		return
+	}
+	switch {
+	case b+1 == height:
+		h["border-token:last-canonical-block"]++
+	case b == height && c == 0:
+		h["border-token:first-preconfirmed-block-start"]++
+	case b == height:
+		h["border-token:mid-first-preconfirmed-block"]++
+	case b > height && c == 0:
+		h["border-token:later-preconfirmed-block-start"]++
+	case b > height:
+		h["border-token:mid-later-preconfirmed-block"]++
+	}
+}
+
 func canonFiltered(e *blockchain.FilteredEvent) (string, string) {
 	ks := make([]string, len(e.Keys))
 	for i := range e.Keys {
@@ -561,6 +620,7 @@ func (r *realRun) queryX(q *Qry, pre []*Blk, cfgs []pcfg) {
 		maxPages := len(shortSpec) + len(r.naive) + 8
 		pages := 0
 		failed := false
+		var seq []string
 		for {
 			pages++
 			short, full, next, err := r.realPage(q, cfg, tok)
@@ -589,6 +649,15 @@ func (r *realRun) queryX(q *Qry, pre []*Blk, cfgs []pcfg) {
 			}
 			allShort = append(allShort, short...)
 			allFull = append(allFull, full...)
+			{
+				nb, nc := "0", "0"
+				if !next.IsEmpty() {
+					p := strings.SplitN(next.String(), "-", 2)
+					nb, nc = p[0], p[1]
+				}
+				seq = append(seq, fmt.Sprintf("%d:%s:%s", len(short), nb, nc))
+				r.countToken(nb, nc, len(short), height, len(pre))
+			}
 			if next.IsEmpty() {
 				break
 			}
@@ -610,6 +679,12 @@ func (r *realRun) queryX(q *Qry, pre []*Blk, cfgs []pcfg) {
 		if failed {
 			continue
 		}
+		npre := 0
+		if pc != nil {
+			npre = len(pre)
+		}
+		r.checkPaging(fmt.Sprintf("pgseq %d %d %d %d %d %d", q.From, q.To, cfg.chunk, cfg.limit, len(shortSpec), npre), seq,
+			fmt.Sprintf("query %+v chunk=%d limit=%d height=%d preconfirmed=[%s]", *q, cfg.chunk, cfg.limit, len(r.naive), strings.TrimSpace(preWords)))
 		if !eqS(allFull, fullSpec) {
 			kind := diffKind(allShort, shortSpec)
 			if kind == "reordered" && eqS(allShort, shortSpec) {
@@ -1512,8 +1587,16 @@ func main() {
 		}
 	}
 	c.Extra["model_s"] = time.Since(t0).Seconds()
+	// counts of continuation tokens at the canonical / pre-confirmed border met in the generated queries
+	border := map[string]int{}
+	for k, v := range c.Hist {
+		if strings.HasPrefix(k, "border-token:") || strings.HasPrefix(k, "token:") || strings.HasPrefix(k, "paging-predicates:") {
+			border[k] = v
+		}
+	}
+	c.Extra["border_tokens_and_paging_predicates"] = border
 	c.Extra["window_size_is_const"] = true
 	c.Extra["real_window"] = core.NumBlocksPerFilter
 	_ = os.Stdout
-	c.Finish("every page of the real EventFilter equals the extracted model's page; concatenated pages equal the naive receipt scan (= filter_spec); model-only histories at W=2..5 are exact whenever cache_fresh and disk_ok hold")
+	c.Finish("every page of the real EventFilter equals the extracted model's page; concatenated pages equal the naive receipt scan (= filter_spec / filter_spec_pre); every page sequence of the implementation (EventFilter and rpc v8/v9/v10) satisfies pages_ok and page_count_ok (chunk bound, empty page only at the scan limit, token progress, at most max(1, blocks+matches) pages); model-only histories at W=2..5 are exact whenever cache_fresh and disk_ok hold")
 }
